@@ -1,19 +1,20 @@
 import PP.Model.Bytes
 /-
-`name`, `fieldToType`, `extractArgumentsType` (stack/source.go:159-236): from
+`unparen`, `name`, `fieldToType`, `extractArgumentsType` (stack/source.go:159-250): from
 the `*ast.FuncDecl` found by `getFuncAST` to the list of parameter type names
 and the ellipsis flag that `augmentCall` consumes.
 
 What is modelled: the three functions, case by case, over a datatype that has
 one constructor per go/ast node kind the two type switches distinguish, and
-one (`other`) for every other kind (StructType, ParenExpr, IndexExpr,
-IndexListExpr, BadExpr, …: the `default` branches).
+`paren` for `*ast.ParenExpr` (which `unparen` strips), and one (`other`) for
+every other kind (StructType, IndexExpr, IndexListExpr, BadExpr, …: the
+`default` branches).
 
 What is NOT modelled (trusted): go/parser (which `GoFuncDecl` a source text
 yields; the harness converts the real `*ast.FuncDecl` with a plain type
 switch), and the following facts about the trees go/parser builds, which make
 the Go code panic-free: `f.Type.Params` is never nil, `SelectorExpr.Sel` is
-never nil, `StarExpr.X`, `ArrayType.Elt`, `MapType.Key/Value`,
+never nil, `StarExpr.X`, `ParenExpr.X`, `ArrayType.Elt`, `MapType.Key/Value`,
 `ChanType.Value` are never nil (`name` of a nil interface would take the
 `default` branch anyway).  The only nil-able children the code meets are
 `ArrayType.Len` (tested) and `Ellipsis.Elt` (NOT tested: `name(nil)` is
@@ -37,6 +38,7 @@ inductive GoExpr where
   | interfaceType                                       -- *ast.InterfaceType
   | mapType (k v : GoExpr)                              -- *ast.MapType
   | chanType (v : GoExpr)                               -- *ast.ChanType (direction is not read)
+  | paren (x : GoExpr)                                  -- *ast.ParenExpr
   | other                                               -- any other node kind
   deriving Repr, Inhabited
 
@@ -54,8 +56,20 @@ structure GoFuncDecl where
 
 def unknown : Bytes := b!"<unknown>"
 
-/-- `func name(n ast.Node) string` on a non-nil node -/
+/-- `func unparen(e ast.Expr) ast.Expr`: the loop strips one `*ast.ParenExpr`
+per iteration -/
+def unparen : GoExpr → GoExpr
+  | .paren x => unparen x
+  | e => e
+
+/-- `func name(n ast.Node) string` on a non-nil node: `n = unparen(e)` then
+the type switch.  The loop of `unparen` is unfolded into the recursion (one
+`paren` constructor per iteration) so that the function stays structurally
+recursive; `name_eq_unparen` (PP/Lemmas/TypeNamesLemmas.lean) states that
+`name e = name (unparen e)` and on a node that is not a `paren` the equations
+below are the cases of the switch. -/
 def name : GoExpr → Bytes
+  | .paren x => name x
   | .interfaceType => b!"interface{}"
   | .ident n => n
   | .selector _ sel => sel
@@ -72,7 +86,7 @@ def nameOpt : Option GoExpr → Bytes
 
 /-- `func fieldToType(f *ast.Field) (string, bool)` -/
 def fieldToType (f : GoField) : Bytes × Bool :=
-  match f.typ with
+  match unparen f.typ with
   | .arrayType (some len) elt => (b!"[" ++ name len ++ b!"]" ++ name elt, false)
   | .arrayType none elt => (b!"[]" ++ name elt, false)
   | .ellipsis elt => (nameOpt elt, true)
@@ -91,9 +105,10 @@ def isStar : GoExpr → Bool
   | _ => false
 
 /-- the slice `fields` before the loop: the receiver iff `f.Recv != nil`,
-`len(f.Recv.List) == 1` and its type is a `*ast.StarExpr` -/
+`len(f.Recv.List) == 1` and its type, parentheses stripped, is a
+`*ast.StarExpr` -/
 def recvFields : Option (List GoField) → List GoField
-  | some [f] => if isStar f.typ then [f] else []
+  | some [f] => if isStar (unparen f.typ) then [f] else []
   | _ => []
 
 /-- `mult := len(arg.Names); if mult == 0 { mult = 1 }` -/
